@@ -103,6 +103,11 @@ class UnitsProc(Process):
                       # a quantity-valued variable with a custom serializer
                       'qtag': {'_default': 2.0 * units.g, '_emit': True,
                                '_serializer': CTX['q_serializer']},
+                      # counts down from its non-zero default to 0
+                      'left': {'_default': 2, '_updater': 'set',
+                               '_emit': True},
+                      'on': {'_default': True, '_updater': 'set',
+                             '_emit': True},
                       # a list of quantities (units taken from the first)
                       'qlist': {'_default': [1.0 * units.g, 2.0 * units.g],
                                 '_updater': 'set', '_emit': True}}}
@@ -115,7 +120,8 @@ class UnitsProc(Process):
         self.k = getattr(self, 'k', 0) + 1
         return {'u': {'mass': 500.0 * units.mg, 'tag': 1,
                       'qtag': 1.0 * units.g,
-                      'qlist': [float(self.k) * units.g, 500.0 * units.mg]}}
+                      'qlist': [float(self.k) * units.g, 500.0 * units.mg],
+                      'left': max(0, 2 - self.k), 'on': self.k < 2}}
 
 
 class Last(Step):
@@ -372,6 +378,8 @@ def body(ctx, cfg):
             exp[('u', 'tag')] = r['snap'][('u', 'tag')]
             exp[('u', 'qtag')] = r['snap'][('u', 'qtag')]
             exp[('u', 'qlist')] = r['snap'][('u', 'qlist')]
+            exp[('u', 'left')] = r['snap'][('u', 'left')]
+            exp[('u', 'on')] = r['snap'][('u', 'on')]
         content.append(set(row) == set(exp))
         content.append(EQ(r['data']['time'], r['g']))
         for p in row:
@@ -457,6 +465,8 @@ def body(ctx, cfg):
                     r['snap'][('u', 'qtag')].magnitude
                 exp[('u', 'qlist')] = ['!units[%s]' % str(v.to(_u.g))
                                        for v in r['snap'][('u', 'qlist')]]
+                exp[('u', 'left')] = r['snap'][('u', 'left')]
+                exp[('u', 'on')] = r['snap'][('u', 'on')]
             ok.append(set(got) == set(exp))
             for p in got:
                 if p in exp:
